@@ -134,6 +134,32 @@ def check_survival(name):
       continue
     if got != want:
       bad(f'tags did not survive {opname}: {got} vs {want}')
+  # tags of a copy are the copy's own: tag edits on (every Buildable of) a deep copy, or on the top
+  # level of a shallow one, leave every tag of the original as it was ("no other tag has changed")
+  for opname, op in ops.items():
+    if opname == 'json':
+      continue
+    fresh_root = factory()
+    want2 = tagmap(fresh_root)
+    try:
+      cp = op(fresh_root)
+    except Exception:   # pylint: disable=broad-except
+      continue
+    targets = reachable_buildables(cp) if opname == 'deepcopy' else (
+        [cp] if isinstance(cp, config_lib.Buildable) else [])
+    for b in targets:
+      for k in [k for k in list(b.__argument_tags__) if isinstance(k, str)] + \
+          [k for k in b.__arguments__ if isinstance(k, str)][:1]:
+        try:
+          fdl.add_tag(b, k, pool.TagB)
+          fdl.remove_tag(b, k, pool.TagB)
+          fdl.add_tag(b, k, pool.TagA2)
+          fdl.clear_tags(b, k)
+        except Exception:   # pylint: disable=broad-except
+          pass
+    if tagmap(fresh_root) != want2:
+      bad(f'editing the tags of a {opname} copy changed the tags of the original: '
+          f'{tagmap(fresh_root)} vs {want2}')
   return len(ops), 1, viols, []
 
 
